@@ -8,6 +8,7 @@ package main
 
 import (
 	"fmt"
+	"runtime"
 	"sort"
 	"strconv"
 	"strings"
@@ -630,6 +631,74 @@ func stressEvict(r *hx.Run, f []string) {
 	})
 }
 
+// stress evictsame <slots> <callers> <seed>: for every fresh slot, <callers> barrier-started goroutines ask for
+// EvictionEvent(slot) while another goroutine evicts the previous slot.  EvictionEvent only holds the read lock of the
+// eviction state and relies on ShrinkingMap.GetOrCreate being atomic: all callers must get the SAME event object, and
+// once the slot is evicted every handed-out event must have triggered (an orphan created by a lost race never does).
+func stressEvictSame(r *hx.Run, f []string) {
+	slots, callers, seed := atoi(f[2]), atoi(f[3]), mustU64(f[4])
+	_ = seed
+	if runtime.GOMAXPROCS(0) < 4 {
+		runtime.GOMAXPROCS(4)
+	}
+	guarded(r, "EvictionState", strings.Join(f, " "), func() (o outcome) {
+		st := reactive.NewEvictionState[int]()
+		type held struct {
+			slot int
+			ev   reactive.Event
+		}
+		var all []held
+		distinct := ""
+		for slot := 1; slot <= slots; slot++ {
+			got := make([]reactive.Event, callers)
+			jobs := make([]func(), 0, callers+1)
+			for k := 0; k < callers; k++ {
+				jobs = append(jobs, func() { got[k] = st.EvictionEvent(slot) })
+			}
+			prev := slot - 1
+			jobs = append(jobs, func() { st.Evict(prev) })
+			parMust(jobs...)
+			for k, ev := range got {
+				if ev != got[0] && distinct == "" {
+					distinct = fmt.Sprintf("EvictionEvent(%d) returned different event objects to concurrent callers 0 and %d", slot, k)
+				}
+				if k == 0 || ev != got[0] {
+					all = append(all, held{slot, ev})
+				}
+			}
+		}
+		st.Evict(slots)
+		last := st.LastEvictedSlot()
+		seen := map[string]bool{}
+		var parts []string
+		bad := ""
+		for _, h := range all {
+			t := 0
+			if h.ev.WasTriggered() {
+				t = 1
+			}
+			if (t == 1) != (h.slot <= last) && bad == "" {
+				bad = fmt.Sprintf("an event handed out for slot %d has triggered=%v but the last evicted slot is %d", h.slot, t == 1, last)
+			}
+			if p := fmt.Sprintf("%d:%d", h.slot, t); !seen[p] {
+				seen[p] = true
+				parts = append(parts, p)
+			}
+		}
+		o.lines = append(o.lines, fmt.Sprintf("q evict %d %s", last, strings.Join(parts, ",")))
+		if distinct != "" {
+			o.fails = append(o.fails, failure{"eviction", strings.Join(f, " ") + ": " + distinct,
+				map[string]string{"construct": "EvictionState", "trigger": "same-event", "mode": "stress"}})
+		}
+		if bad != "" {
+			o.fails = append(o.fails, failure{"eviction", strings.Join(f, " ") + ": " + bad,
+				map[string]string{"construct": "EvictionState", "trigger": "quiescence-orphan", "mode": "stress"}})
+		}
+
+		return o
+	})
+}
+
 // endregion
 
 // region wait group ///////////////////////////////////////////////////////////////////////////////////////////////
@@ -708,6 +777,8 @@ func runStress(r *hx.Run, f []string) {
 		stressSorted(r, f)
 	case "evict":
 		stressEvict(r, f)
+	case "evictsame":
+		stressEvictSame(r, f)
 	case "wg":
 		stressWG(r, f)
 	default:
